@@ -53,22 +53,22 @@ package taskfile
 //@ ghost var cachePath string scratch
 //@ func (*CacheNode).Write
 //@   site (*CacheNode).Location#1 ghost cachePath := result
-//@   site os.WriteFile#1 requires arg0 == cachePath && arg1 == data                                                  [C20]
+//@   site os.WriteFile#0 requires arg0 == cachePath && arg1 == data                                                  [C20]
 //@ func (*CacheNode).Read
 //@   site (*CacheNode).Location#1 ghost cachePath := result
-//@   site os.ReadFile#1 requires arg0 == cachePath                                                                   [C20]
+//@   site os.ReadFile#0 requires arg0 == cachePath                                                                   [C20]
 //@ func (*CacheNode).WriteChecksum
 //@   site (*CacheNode).checksumPath#1 ghost cachePath := result
-//@   site os.WriteFile#1 requires arg0 == cachePath && len(arg1) == len(checksum)                                    [C20]
+//@   site os.WriteFile#0 requires arg0 == cachePath && len(arg1) == len(checksum)                                    [C20]
 //@ func (*CacheNode).ReadChecksum
 //@   site (*CacheNode).checksumPath#1 ghost cachePath := result
-//@   site os.ReadFile#1 requires arg0 == cachePath                                                                   [C20]
+//@   site os.ReadFile#0 requires arg0 == cachePath                                                                   [C20]
 //@ func (*CacheNode).WriteTimestamp
 //@   site (*CacheNode).timestampPath#1 ghost cachePath := result
-//@   site os.WriteFile#1 requires arg0 == cachePath                                                                  [C20]
+//@   site os.WriteFile#0 requires arg0 == cachePath                                                                  [C20]
 //@ func (*CacheNode).ReadTimestamp
 //@   site (*CacheNode).timestampPath#1 ghost cachePath := result
-//@   site os.ReadFile#1 requires arg0 == cachePath                                                                   [C20]
+//@   site os.ReadFile#0 requires arg0 == cachePath                                                                   [C20]
 
 //@ ghost var cacheReadOK bool scratch
 //@ ghost var parsedURL *url.URL scratch
@@ -77,12 +77,12 @@ package taskfile
 //@   init dlFailed := false
 //@   init promptOKd := false
 //@   site (RemoteNode).ReadContext#1 ghost dlFailed := result.1 != nil
-//@   site checksum#1 requires arg0 == downloadedBytes        -- the checksum is that of the bytes that will be run   [C20]
-//@   site (*CacheNode).ChecksumPrompt#1 requires arg1 == checksum                                                    [C20]
+//@   site checksum#0 requires arg0 == downloadedBytes        -- the checksum is that of the bytes that will be run   [C20]
+//@   site (*CacheNode).ChecksumPrompt#0 requires arg1 == checksum                                                    [C20]
 //@   site (*Reader).readRemoteNodeContent$1#1 ghost promptOKd := result == nil
-//@   site (*CacheNode).WriteChecksum#1 requires (prompt == "" || promptOKd) && arg1 == checksum                      [C20]
-//@   site (*CacheNode).WriteTimestamp#1 requires prompt == "" || promptOKd                                           [C20]
-//@   site (*CacheNode).Write#1 requires (prompt == "" || promptOKd) && arg1 == downloadedBytes                       [C20]
+//@   site (*CacheNode).WriteChecksum#0 requires (prompt == "" || promptOKd) && arg1 == checksum                      [C20]
+//@   site (*CacheNode).WriteTimestamp#0 requires prompt == "" || promptOKd                                           [C20]
+//@   site (*CacheNode).Write#0 requires (prompt == "" || promptOKd) && arg1 == downloadedBytes                       [C20]
 //@   ensures result.1 == nil && !dlFailed && downloadedBytes != nil ==> prompt == "" || promptOKd                    [C20]
 //@   ensures dlFailed && cacheFound ==> result.1 == nil && result.0 == cachedBytes   -- the cache keeps tasks runnable  [C20]
 //@   init cacheReadOK := false
@@ -100,7 +100,7 @@ package taskfile
 // the node is the entrypoint as it was given: its URL is the parsed entrypoint, untouched (relative includes of the
 // remote file are resolved against it, online and from the cache alike), and its location - the key of its cache
 // entry and of its vertex in the graph - is the entrypoint string itself
-//@   site url.Parse#1 requires arg0 == entrypoint                                                                    [C20]
+//@   site url.Parse#0 requires arg0 == entrypoint                                                                    [C20]
 //@   site url.Parse#1 ghost parsedURL := result.0
 //@   ensures result.1 == nil ==> result.0.URL == parsedURL && result.0.entrypoint == entrypoint                      [C20]
 //@   nosite store:URL.Path                                                                                           [C20]
@@ -111,17 +111,17 @@ package taskfile
 //@ func NewGitNode
 //@   ensures result.1 == nil ==> u.Scheme != "http" || insecure                                                      [C20]
 //@ func NewNode
-//@   site NewGitNode#1 requires arg2 == insecure                                                                     [C20]
-//@   site NewHTTPNode#1 requires arg2 == insecure                                                                    [C20]
+//@   site NewGitNode#0 requires arg2 == insecure                                                                     [C20]
+//@   site NewHTTPNode#0 requires arg2 == insecure                                                                    [C20]
 
 // ---- C08: a relative include dir is resolved against the directory of the INCLUDING Taskfile's own file -------
 //@ ghost var entryDir string scratch
 //@ ghost var dirAbs bool scratch
 //@ ghost var dirJoined string scratch
 //@ func (*FileNode).ResolveDir
-//@   site filepath.Dir#1 requires arg0 == node.Entrypoint                                                      [C08]
+//@   site filepath.Dir#0 requires arg0 == node.Entrypoint                                                      [C08]
 //@   site filepath.Dir#1 ghost entryDir := result
-//@   site filepathext.SmartJoin#1 requires arg0 == entryDir                                                    [C08]
+//@   site filepathext.SmartJoin#0 requires arg0 == entryDir                                                    [C08]
 //@   init dirAbs := false
 //@   init dirJoined := ""
 //@   site filepathext.IsAbs#1 ghost dirAbs := result
@@ -132,9 +132,9 @@ package taskfile
 // includes that differ anywhere in their URL never share a cache file
 //@ ghost var keyLoc string scratch
 //@ func (*HTTPNode).CacheKey
-//@   site (*HTTPNode).Location#1 requires arg0 == node
+//@   site (*HTTPNode).Location#0 requires arg0 == node
 //@   site (*HTTPNode).Location#1 ghost keyLoc := result
-//@   site checksum#1 requires arg0 == conv(type([]byte), keyLoc)                                               [C09,C20]
+//@   site checksum#0 requires arg0 == conv(type([]byte), keyLoc)                                               [C09,C20]
 
 // The trust prompt is asked under a mutex (one question at a time); the closure must leave it unlocked on every
 // path, or the next include waits forever.
@@ -166,7 +166,7 @@ package taskfile
 // ---- C20: looking for the remote file honours the caller's deadline (--timeout): every request is made with
 // the context that was passed in, so a server that accepts the connection and then stalls cannot hold Task up
 //@ func RemoteExists
-//@   site http.NewRequestWithContext#1 requires arg0 == ctx                                                    [C20]
+//@   site http.NewRequestWithContext#0 requires arg0 == ctx                                                    [C20]
 //@   nosite http.Head                                                                                          [C20]
 //@   nosite http.Get                                                                                           [C20]
 //@   nosite (*Client).Head                                                                                     [C20]
